@@ -24,7 +24,7 @@ DEFAULT_TTL = 3600
 class JobM:
     __slots__ = ("jobid", "serial", "channel", "priority", "payload", "deadline", "ttl",
                  "state", "holder", "result", "error", "info", "finished_at", "fin_ttl",
-                 "deliveries", "requeues", "epoch_added")
+                 "deliveries", "requeues", "ttl_uncertain")
 
     def __init__(self, jobid, serial, channel, priority, payload, deadline, ttl):
         self.jobid = jobid
@@ -43,6 +43,7 @@ class JobM:
         self.fin_ttl = None
         self.deliveries = 0
         self.requeues = 0
+        self.ttl_uncertain = False
 
     @property
     def key(self):
@@ -393,17 +394,15 @@ class QsModel:
                     else:
                         self.probe("timeout-while-queued")
                     self._finish(j, now, error="timeout")
-        elif kind == "watchdog":
-            self._watchdog_pending = now
 
-    _watchdog_pending = None
+    def on_tick_done(self, kind, now):
+        if kind == "watchdog":
+            self.after_watchdog(now)
 
-    def after_watchdog(self):
-        """Called by the driver once the watchdog tick has run: resolve TTL drops by
-        looking at the server's job table, and bound them."""
-        now = self._watchdog_pending
-        self._watchdog_pending = None
-        if now is None or self.sim is None:
+    def after_watchdog(self, now):
+        """Runs in the same atomic step as the watchdog tick: resolve TTL drops by looking
+        at the server's job table, and bound them."""
+        if self.sim is None:
             return
         table = self.sim.workq.id2job
         for jid, j in list(self.jobs.items()):
@@ -411,13 +410,23 @@ class QsModel:
             if srv is not None and srv.serial == j.serial:
                 continue
             if j.state != "d":
-                self._fail("R-ttl", f"unfinished job {j.tag()} disappeared from the server", job=j.tag())
-            if now < j.finished_at + j.fin_ttl - 1:
+                self._fail("R-final", f"unfinished job {j.tag()} is no longer known to the server under its id "
+                           f"(table holds {srv.jobid!r}#{srv.serial} done={srv.done})" if srv is not None else
+                           f"unfinished job {j.tag()} disappeared from the server", job=j.tag())
+            if not j.ttl_uncertain and now < j.finished_at + j.fin_ttl - 1:
                 self._fail("R-ttl", f"finished job {j.tag()} dropped {now - j.finished_at:.1f}s after it "
                            f"finished, before its time-to-live of {j.fin_ttl}s", job=j.tag())
             if srv is None:
                 del self.jobs[jid]
                 self.probe("ttl-drop")
+
+    def note_jump(self, delta):
+        """The wall clock was stepped.  Time-to-live bookkeeping in the server is wall-clock
+        based, so for jobs already finished the elapsed-ttl bound cannot be stated any more;
+        jobs finishing after the jump are bounded exactly again."""
+        for j in self.jobs.values():
+            if j.state == "d":
+                j.ttl_uncertain = True
 
     def on_restart(self, now):
         self._event()
@@ -443,8 +452,6 @@ class QsModel:
     # ---- quiescent-point invariants -------------------------------------------
     def at_quiescence(self):
         self._check_pending_immediate()
-        if self._watchdog_pending is not None:
-            self.after_watchdog()
         # no lost wake-up: a blocked puller and an eligible unheld job cannot coexist
         for conn, channels in self.pulls.items():
             elig = self._eligible(channels)
@@ -470,9 +477,10 @@ class QsModel:
                 if not sj.done:
                     where.setdefault((sj.jobid, sj.serial), []).append(("queue", ch))
         for name, h in sim.handlers.items():
-            if name in self.dead or not sim.conns.get(name) or sim.conns[name].epoch != sim.epoch:
+            sock = sim.socks.get(name)
+            if name in self.dead or sock is None or sock.epoch != sim.epoch:
                 continue
-            g = sim.conns[name].greenlet
+            g = sock.greenlet
             if g is None or g.dead:
                 continue
             for sj in h.running_jobs.values():
